@@ -144,6 +144,15 @@ def shape_list(tier):
                 core = (l in (X[0], XY[0])) and (r in (X[1], Y[0], XY[1], X[0]))
                 add((op, l, r), core)
                 add(("not", (op, l, r)), core)
+    # predicates (a call of a Predicate class / HasType) next to comparisons over the same variable
+    for p in (("pred", x, 0), ("isa", x)):
+        for op in ("and", "or"):
+            add((op, p, X[0]), op == "or")
+            add((op, X[1], p), False)
+            add((op, ("not", p), X[1]), False)
+            add(("not", (op, p, X[0])), False)
+    add(("or", ("pred", x, 0), ("isa", x)), False)
+    add(("and", ("or", ("pred", x, 0), X[0]), Y[0]), False)
     # depth 3
     small = [(X[0], X[1]), (X[0], Y[0]), (XY[0], X[1]), (X[1], XY[1])]
     for (l, r) in small:
